@@ -14,5 +14,6 @@ theorem body_detectSequence : Tea.Gen.fact_body_detectSequence = Tea.Doc.fact_bo
 theorem body_detectBracketedPaste : Tea.Gen.fact_body_detectBracketedPaste = Tea.Doc.fact_body_detectBracketedPaste := rfl
 theorem body_detectReportFocus : Tea.Gen.fact_body_detectReportFocus = Tea.Doc.fact_body_detectReportFocus := rfl
 theorem body_isIncompleteEvent : Tea.Gen.fact_body_isIncompleteEvent = Tea.Doc.fact_body_isIncompleteEvent := rfl
+theorem body_Key_String : Tea.Gen.fact_body_Key_String = Tea.Doc.fact_body_Key_String := rfl
 
 end Tea.Props.Bridge.C10
